@@ -21,6 +21,7 @@ cache holds exactly the distinct successfully computed keys.
 """
 import itertools
 import json
+import os
 import random
 
 import numpy as np
@@ -31,8 +32,41 @@ from props import c10 as C
 CACHE_EVENTS = {("func_frozen", "call"), ("func_frozen", "return"), ("func_unfrozen", "call"), ("func_unfrozen", "return")}
 
 
+def _wrapper_roles():
+    """{actual name of the wrapper in util/lru_cache.py: the role name used in this file}.  The two wrappers are found by
+    structure - the nested function that `_freeze_args` / `_unfreeze_scalar_args` returns - not by their spelling, so that
+    renaming `func_frozen` / `func_unfrozen` in einx does not derail the scheduler (work package "robust")."""
+    import ast
+    roles = {}
+    try:
+        with open(os.path.join(core.REPO, "einx/_src/util/lru_cache.py")) as f:
+            tree = ast.parse(f.read())
+        for outer, role in (("_freeze_args", "func_frozen"), ("_unfreeze_scalar_args", "func_unfrozen")):
+            fn = next((n for n in tree.body if isinstance(n, ast.FunctionDef) and n.name == outer), None)
+            if fn is None:
+                continue
+            inner = [n.name for n in fn.body if isinstance(n, ast.FunctionDef)]
+            returned = [n.value.id for n in fn.body if isinstance(n, ast.Return) and isinstance(n.value, ast.Name)]
+            hit = [n for n in inner if n in returned]
+            if len(hit) == 1:
+                roles[hit[0]] = role
+    except (OSError, SyntaxError):
+        pass
+    for role in ("func_frozen", "func_unfrozen"):
+        if role not in roles.values():
+            roles[role] = role          # not recognised: the historical spelling
+    return roles
+
+
+ROLE = _wrapper_roles()
+
+
+def _role(name):
+    return ROLE.get(name, name if name not in ("func_frozen", "func_unfrozen") else "?" + name)
+
+
 def cache_points(frame, event):
-    return (frame.f_code.co_name, event) in CACHE_EVENTS
+    return (_role(frame.f_code.co_name), event) in CACHE_EVENTS
 
 
 class Logged:
@@ -46,7 +80,7 @@ class Logged:
     def _note(self, s):
         if self.last is not None:
             w = s.workers[self.last]
-            self.log.append((self.last, w.pos[2], w.pos[3].split(".")[-1]))
+            self.log.append((self.last, w.pos[2], _role(w.pos[3].split(".")[-1])))
 
     def __call__(self, s, en):
         self._note(s)
@@ -100,7 +134,7 @@ COARSE_EVENTS = CACHE_EVENTS - {("func_frozen", "return")}
 
 def coarse_cache_points(frame, event):
     """Without the return of `func_frozen`: insert-and-leave is one step (leaving touches nothing shared)."""
-    return (frame.f_code.co_name, event) in COARSE_EVENTS
+    return (_role(frame.f_code.co_name), event) in COARSE_EVENTS
 
 
 # ===================================================================================================== L1: the wrapper
